@@ -344,6 +344,11 @@ class Interp(object):
                 d.taint = star_open.taint
                 d.valkinds = star_open.valkinds
                 d.splat_of = star_open
+                named = (set(pos) | {p.arg for p in a.kwonlyargs}) - {pos[0] if pos and fi.cls is not None and fi.kind != 'staticmethod' else None}
+                if named:
+                    # an open mapping splatted into a signature that also has named parameters: a key of the mapping
+                    # that equals one of those names binds that parameter
+                    self.emit('open-splat-named', node, {'callee': fi, 'mapping': star_open, 'params': named})
             loc[a.kwarg.arg] = d
         else:
             if kwargs:
